@@ -51,7 +51,9 @@ func (g *Gen) bits(n uint) uint64 {
 	return u
 }
 
-func isNaN(bits uint64) bool { return bits&0x7ff0000000000000 == 0x7ff0000000000000 && bits&0xfffffffffffff != 0 }
+func isNaN(bits uint64) bool {
+	return bits&0x7ff0000000000000 == 0x7ff0000000000000 && bits&0xfffffffffffff != 0
+}
 
 // NextMarker returns a fresh marker payload.
 func (g *Gen) NextMarker() []byte {
@@ -339,6 +341,125 @@ func (g *Gen) sites(t *gtext.T, v *gtext.G, out *[]site) {
 				*out = append(*out, site{"required-unset", func() { v.Items[i] = gtext.Nil() }})
 			}
 			g.sites(f.T, v.Items[i], out)
+		}
+	}
+}
+
+// Perturb returns a deep copy of the valid value v changed at exactly one place
+// (a leaf, the presence of an optional field, nil vs empty, the length or the
+// order of a container, the sign of a zero), still valid; what names the change.
+func (g *Gen) Perturb(t *gtext.T, v *gtext.G) (*gtext.G, string, bool) {
+	c := v.Clone()
+	var sites []site
+	g.psites(t, c, func(n *gtext.G) { *c = *n }, true, &sites)
+	if len(sites) == 0 {
+		return nil, "", false
+	}
+	s := sites[g.R.Intn(len(sites))]
+	s.apply()
+	return c, s.what, true
+}
+
+// psites collects perturbation sites; set replaces the value at this position.
+func (g *Gen) psites(t *gtext.T, v *gtext.G, set func(*gtext.G), top bool, out *[]site) {
+	root := t.Root()
+	r := g.R
+	if v.IsNil() {
+		return
+	}
+	switch root.K {
+	case gtext.KBool:
+		*out = append(*out, site{"leaf", func() { set(gtext.Bool(v.U == 0)) }})
+	case gtext.KI8, gtext.KI16, gtext.KI32, gtext.KI64, gtext.KEnum:
+		*out = append(*out, site{"leaf", func() { n := *v; n.U ^= 1 << uint(r.Intn(7)); set(&n) }})
+	case gtext.KDouble:
+		if v.U<<1 == 0 {
+			*out = append(*out, site{"zero-sign", func() { n := *v; n.U ^= 1 << 63; set(&n) }})
+		} else {
+			*out = append(*out, site{"leaf", func() {
+				n := *v
+				n.U ^= 1 << uint(r.Intn(40))
+				if isNaN(n.U) {
+					n.U = 0x3ff0000000000000
+				}
+				set(&n)
+			}})
+		}
+	case gtext.KString, gtext.KBinary:
+		*out = append(*out, site{"leaf", func() { n := *v; n.B = append(append([]byte{}, v.B...), byte('a'+r.Intn(26))); set(&n) }})
+	case gtext.KList, gtext.KSet, gtext.KSSet:
+		key := root.K != gtext.KList
+		*out = append(*out, site{"length+1", func() {
+			x := g.value(root.Elem, g.MaxDepth, key)
+			if key && containsEq(v.Items, 1, x) {
+				return
+			}
+			pos := r.Intn(len(v.Items) + 1)
+			v.Items = append(v.Items[:pos], append([]*gtext.G{x}, v.Items[pos:]...)...)
+		}})
+		if len(v.Items) > 0 {
+			*out = append(*out, site{"length-1", func() { pos := r.Intn(len(v.Items)); v.Items = append(v.Items[:pos], v.Items[pos+1:]...) }})
+		}
+		if len(v.Items) > 1 {
+			*out = append(*out, site{"order", func() { i := r.Intn(len(v.Items) - 1); v.Items[i], v.Items[i+1] = v.Items[i+1], v.Items[i] }})
+		}
+		for i := range v.Items {
+			i := i
+			g.psites(root.Elem, v.Items[i], func(n *gtext.G) { v.Items[i] = n }, false, out)
+		}
+	case gtext.KMap:
+		*out = append(*out, site{"length+1", func() {
+			k := g.value(root.Key, g.MaxDepth, true)
+			if containsEq(v.Items, 2, k) {
+				return
+			}
+			v.Items = append(v.Items, k, g.value(root.Elem, g.MaxDepth, false))
+		}})
+		if len(v.Items) > 0 {
+			*out = append(*out, site{"length-1", func() { pos := 2 * r.Intn(len(v.Items)/2); v.Items = append(v.Items[:pos], v.Items[pos+2:]...) }})
+		}
+		if len(v.Items) > 2 {
+			*out = append(*out, site{"order", func() {
+				i := 2 * r.Intn(len(v.Items)/2-1)
+				v.Items[i], v.Items[i+2] = v.Items[i+2], v.Items[i]
+				v.Items[i+1], v.Items[i+3] = v.Items[i+3], v.Items[i+1]
+			}})
+		}
+		for i := range v.Items {
+			i := i
+			et := root.Key
+			if i%2 == 1 {
+				et = root.Elem
+			}
+			g.psites(et, v.Items[i], func(n *gtext.G) { v.Items[i] = n }, false, out)
+		}
+	case gtext.KStruct:
+		sd := g.Env.Structs[root.Name]
+		if sd == nil || len(v.Items) != len(sd.Fields) {
+			return
+		}
+		union := sd.Arity() != 0
+		for i, f := range sd.Fields {
+			i, f := i, f
+			x := v.Items[i]
+			if !union && !f.Req {
+				if x.IsNil() {
+					*out = append(*out, site{"presence:set", func() { v.Items[i] = g.value(f.T, g.MaxDepth, false) }})
+				} else if f.Def == nil {
+					*out = append(*out, site{"presence:unset", func() { v.Items[i] = gtext.Nil() }})
+				}
+			}
+			if union && !x.IsNil() && len(sd.Fields) > 1 && sd.Arity() == 1 {
+				*out = append(*out, site{"union-member", func() {
+					j := (i + 1 + r.Intn(len(sd.Fields)-1)) % len(sd.Fields)
+					v.Items[i] = gtext.Nil()
+					v.Items[j] = g.value(sd.Fields[j].T, g.MaxDepth, false)
+				}})
+			}
+			if !x.IsNil() && f.T.IsRef() && f.T.Root().K != gtext.KBinary && len(x.Items) == 0 && (f.T.IsList() || !f.Req) && !union && f.Def == nil {
+				*out = append(*out, site{"empty-to-nil", func() { v.Items[i] = gtext.Nil() }})
+			}
+			g.psites(f.T, x, func(n *gtext.G) { v.Items[i] = n }, false, out)
 		}
 	}
 }
